@@ -26,7 +26,7 @@ def validate_by_record(ctx, spec_dir, module, events, proj, name, full_sample=0,
     for i, e in enumerate(events):
         groups.setdefault(json.dumps(proj(e), sort_keys=True), []).append(i)
     recs = [json.loads(k) for k in groups]
-    bad_recs = validate_calls(spec_dir, module, recs, name, chunks=4, **kw)
+    bad_recs = validate_calls(spec_dir, module, recs, name, chunks=max(1, min(4, len(recs) // 150)), **kw)
     bad = []
     keys = list(groups)
     for b in bad_recs:
@@ -224,7 +224,7 @@ def c30_project(e):
     def part(p):
         return {k: v for k, v in p.items() if k not in ("msg", "text", "class", "kind")}
     o = {"per": [part(p) for p in e["per"]]}
-    for k in ("exp", "names", "dec_exp"):
+    for k in ("exp", "names", "dec_exp", "depth"):
         if k in e:
             o[k] = e[k]
     return o
@@ -254,14 +254,14 @@ def C30(ctx):
     ctx.add_tlc(r)
 
     # sizes of the shape table (printed by a constant-level run is overkill: derive from a tiny TLC run)
-    nshapes = 12654  # NLeaves * (1 + 10 + 100), cross-checked below against the generator's output
+    nshapes = 117 * 111  # NLeaves * (1 + NWraps + NWraps^2), asserted by MCManifestAst (ShapeLaws)
     if q:
         lo = 1 + (ctx.seed * 37) % (nshapes - 400)
         runs = [("struct-2", dict(consts={"K": 2})),
-                ("args-leaves", dict(consts={"Mode": '"args"', "ShapeLo": 1, "ShapeHi": 114})),
-                ("args-window", dict(consts={"Mode": '"args"', "ShapeLo": lo, "ShapeHi": lo + 399})),
+                ("args-leaves", dict(consts={"Mode": '"args"', "ShapeLo": 1, "ShapeHi": 117})),
+                ("args-window", dict(consts={"Mode": '"args"', "ShapeLo": lo, "ShapeHi": lo + 249})),
                 ("args-with-objects", dict(consts={"Mode": '"args"', "ShapeLo": 1 + lo % 1000, "ShapeHi": 60 + lo % 1000, "Prefixed": "TRUE"})),
-                ("random-4", dict(consts={"Mode": '"rand"', "K": 4}, simulate=150, depth=5, seed=ctx.seed)),
+                ("random-4", dict(consts={"Mode": '"rand"', "K": 4}, simulate=100, depth=5, seed=ctx.seed)),
                 ("escaped-names", dict(consts={"Mode": '"esc"', "K": 1}))]
     else:
         runs = [("struct-3", dict(consts={"K": 3})),
@@ -269,57 +269,102 @@ def C30(ctx):
                 ("args-with-objects", dict(consts={"Mode": '"args"', "ShapeLo": 1, "ShapeHi": 3000, "Prefixed": "TRUE"})),
                 ("random-5", dict(consts={"Mode": '"rand"', "K": 5}, simulate=6000, depth=6, seed=ctx.seed)),
                 ("escaped-names", dict(consts={"Mode": '"esc"', "K": 2}))]
-    cases, fam_of, per_run = [], [], {}
+    # Each generator run is streamed: TLC output -> case file -> harness -> event file, read back line by
+    # line; only aggregates are kept (one representative per distinct outcome record), so that the
+    # thorough tier (half a million cases) stays within a few hundred MB.
+    import hashlib
+    groups = collections.OrderedDict()      # (run, projected record) -> [count, first case, first event]
+    per_run, ops, kinds = {}, collections.Counter(), collections.Counter()
+    ok_rt, total, distinct_h = 0, 0, set()
+    reservoir, sample_pairs = [], []
+    cp, ep = ctx.wpath("rt-cases.ndjson"), ctx.wpath("rt-events.ndjson")
     for name, kw in runs:
         g = tlc("ManifestText", "GenManifestAst", workers=8, coverage=False, timeout=2400, heap="6g", **kw)
         if not g.ok:
             raise ToolError("GenManifestAst %s failed: %s" % (name, g.out[-1500:]))
-        b = dedupe(g.printed("B"))
-        per_run[name] = len(b)
-        cases += b
-        fam_of += [name] * len(b)
-        del g
-    if len(cases) < 2000:
+        seen, n = set(), 0
+        with open(cp, "w") as f:
+            for line in g.out.splitlines():
+                if line.startswith('<<"B", "') and line.endswith('">>'):
+                    text = json.loads(line[7:-2])          # the JSON text TLC printed (still a string)
+                    h = hashlib.md5(text.encode()).digest()
+                    if h not in seen:
+                        seen.add(h)
+                        f.write(text + "\n")
+                        n += 1
+        del g, seen
+        per_run[name] = n
+        if n == 0:
+            raise ToolError("GenManifestAst %s printed no case" % name)
+        vh(BIN, ["rt", "run", "threads=4"], stdin_path=cp, stdout_path=ep)
+        m = 0
+        with open(cp) as fc, open(ep) as fe:
+            for cl, el in zip(fc, fe):
+                c, e = json.loads(cl), json.loads(el)
+                m += 1
+                total += 1
+                for i in c["ins"]:
+                    ops[i["op"]] += 1
+                for p_ in e["per"]:
+                    kinds[p_.get("kind")] += 1
+                    if p_.get("comp") == "ok" and p_.get("eq"):
+                        ok_rt += 1
+                distinct_h.add(hashlib.md5(json.dumps([c["fam"], c["pre"], c["children"], c["ins"]], sort_keys=True).encode()).digest()[:8])
+                pr = c30_project(e)
+                key = (name, json.dumps(pr, sort_keys=True))
+                gq = groups.get(key)
+                if gq is None:
+                    groups[key] = [1, c, e]
+                else:
+                    gq[0] += 1
+                if not q:       # reservoir of raw records for the per-event cross-check
+                    if len(reservoir) < 5000:
+                        reservoir.append(pr)
+                    elif ctx.rng.random() < 5000.0 / total:
+                        reservoir[ctx.rng.randrange(5000)] = pr
+                if len(sample_pairs) < 2 and (not sample_pairs or (len(c["ins"]) >= 2 and any(i2["args"] for i2 in c["ins"]))):
+                    sample_pairs.append({"case": c, "outcome": e})
+        if m != n:
+            raise ToolError("harness returned %d events for %d cases (%s)" % (m, n, name))
+        os.unlink(cp)
+        os.unlink(ep)
+    if total < 2000:
         raise ToolError("too few C30 cases generated")
-    cp, ep = ctx.wpath("rt-cases.ndjson"), ctx.wpath("rt-events.ndjson")
-    write_ndjson(cp, cases)
-    vh(BIN, ["rt", "run", "threads=4"], stdin_path=cp, stdout_path=ep)
-    evs = read_ndjson(ep)
-    os.unlink(cp)
-    os.unlink(ep)
-    if len(evs) != len(cases):
-        raise ToolError("harness returned %d events for %d cases" % (len(evs), len(cases)))
-    bad, nrec = validate_by_record(ctx, "ManifestText", "TraceManifestAst", evs, c30_project, "c30",
-                                   full_sample=0 if q else 5000)
+    keys = list(groups)
+    recs = [json.loads(k[1]) for k in keys]
+    bad_recs = validate_calls("ManifestText", "TraceManifestAst", recs, "c30", chunks=max(1, min(8, len(recs) // 150)))
+    ctx.cov["evaluations"] += total
+    nrec = len(recs)
+    if reservoir:
+        b2 = validate_calls("ManifestText", "TraceManifestAst", reservoir, "c30-s", chunks=8)
+        badset = {keys[b][1] for b in bad_recs}
+        if any(json.dumps(reservoir[i], sort_keys=True) not in badset for i in b2):
+            raise ToolError("per-record and per-event validation disagree")
     nviol = collections.Counter()
-    for b in bad:
-        c, e = cases[b], evs[b]
-        if fam_of[b] == "escaped-names":
+    for b in bad_recs:
+        name, _ = keys[b]
+        cnt, c, e = groups[keys[b]]
+        if name == "escaped-names":
             key = ESC_KEY
         else:
             key = "round trip: %s (last instruction %s)" % (c30_what(e), c["ins"][-1]["op"])
-        nviol[key] += 1
-        if nviol[key] <= 3:
-            ctx.violation(key, "manifest %s names=%s: %s" % ([i["op"] for i in c["ins"]], c["names"], c30_what(e)),
-                          {"case": c, "outcome": e})
+        nviol[key] += cnt
+        ctx.violation(key, "manifest %s names=%s (%d cases with this outcome): %s" % ([i["op"] for i in c["ins"]], c["names"], cnt, c30_what(e)),
+                      {"case": c, "outcome": e})
     # non-vacuity of the generated set
-    ops = collections.Counter(i["op"] for c in cases for i in c["ins"])
     missing = [o for o in ("TakeFromWorktop", "ReturnToWorktop", "BurnResource", "CloneProof", "PushToAuthZone", "CallFunction",
                            "CallMethod", "CallRoyaltyMethod", "CallMetadataMethod", "CallRoleAssignmentMethod", "CallDirectVaultMethod",
                            "AllocateGlobalAddress", "YieldToParent", "YieldToChild", "VerifyParent", "AssertBucketContents",
                            "AssertWorktopResourcesOnly", "AssertNextCallReturnsInclude", "DropAllProofs", "PopFromAuthZone") if ops[o] == 0]
     if missing:
         raise ToolError("instruction kinds never generated: %s" % missing)
-    kinds = collections.Counter(p.get("kind") for e in evs for p in e["per"])
     if any(kinds[k] == 0 for k in ("V1", "SystemV1", "V2", "SubintentV2")):
         raise ToolError("a manifest kind was never built: %s" % dict(kinds))
-    ok_rt = sum(1 for e in evs for p in e["per"] if p.get("comp") == "ok" and p.get("eq"))
     if ok_rt < 1000:
         raise ToolError("hardly any manifest round-tripped: harness or generator broken")
-    ctx.sample({"case": cases[0], "outcome": evs[0]})
-    j = next(i for i, c in enumerate(cases) if len(c["ins"]) >= 2 and any(i2["args"] for i2 in c["ins"]))
-    ctx.sample({"case": cases[j], "outcome": evs[j]})
-    ctx.cov["traces_validated_against_impl"] += len(evs)
+    for sp_ in sample_pairs:
+        ctx.sample(sp_)
+    ctx.cov["traces_validated_against_impl"] += total
 
     # ---- T: repository corpus (.rtm) and, thorough, the executed transaction scenarios
     files = rtm_corpus()
@@ -352,8 +397,11 @@ def C30(ctx):
     ctx.cov["traces_validated_against_impl"] += len(tev)
 
     # ---- binding self-test: corrupted recorded outcomes must be rejected
-    goodidx = [i for i in range(len(evs)) if i not in set(bad) and evs[i]["dec_exp"] == "ok" and evs[i]["names"] == "default"][:12]
-    recs = [json.loads(json.dumps(c30_project(evs[i]))) for i in goodidx]
+    badk = {keys[b] for b in bad_recs}
+    recs = [json.loads(k[1]) for k in keys if k not in badk and groups[k][2]["dec_exp"] == "ok" and groups[k][2]["names"] == "default"
+            and groups[k][2]["depth"] <= 19][:12]
+    if len(recs) < 12:
+        raise ToolError("not enough accepted records for the self-test")
     recs[1]["per"][0]["eq_ins"] = False
     recs[3]["per"][-1]["eq"] = False
     recs[5]["per"][0]["comp"] = "err"
@@ -364,7 +412,7 @@ def C30(ctx):
     if got != [1, 3, 5, 7, 9, 10]:
         raise ToolError("binding self-test failed: rejected %s" % got)
 
-    distinct = len({json.dumps([c["fam"], c["pre"], c["children"], c["ins"]], sort_keys=True) for c in cases})
+    distinct = len(distinct_h)
     return {"exhaustive": False, "distinct_nontrivial": distinct, "cases_per_generator": per_run,
             "distinct_outcome_records": nrec + nrec2, "round_trips_identical": ok_rt,
             "instruction_kinds_generated": len(ops), "corpus_files": len(files), "corpus_pairs_compiled": compiled,
@@ -382,8 +430,249 @@ def C30(ctx):
                     (2 if q else 3, len(ops), nshapes, len(files),
                      "" if q else " and the manifests of all %d executed scenario transactions" % len(sev))}
 
+# =============================================================================================
+# C23
+
+def C23(ctx):
+    q = ctx.quick
+    r = tlc("SborSchema", "MCSborSchema", workers=8, timeout=2400, consts={"Heavy": "FALSE" if q else "TRUE"})
+    tlc_must_pass(r, "MCSborSchema", required_actions=["GInit", "GNext"])
+    ctx.add_tlc(r)
+    universe = int(r.printed_raw("U")[0])
+    # ---- G: schema pairs from TLC, verdicts from the real comparison
+    # quick: the 4 bases of one residue class mod 4 (chosen by the seed); thorough: all 16 bases
+    bm = {"BaseMod": 4, "BaseRem": ctx.seed % 4} if q else {"BaseMod": 1, "BaseRem": 0}
+    runs = [("single-edits", dict({"Depth": 1, "Sample": 1}, **bm)), ("double-edits", dict({"Depth": 2, "Sample": 12 if q else 4}, **bm))]
+    pairs, per_run = [], {}
+    for name, consts in runs:
+        g = tlc("SborSchema", "GenSborSchema", workers=8, coverage=False, timeout=2400, consts=consts)
+        if not g.ok:
+            raise ToolError("GenSborSchema %s failed: %s" % (name, g.out[-1500:]))
+        b = g.printed("B")
+        per_run[name] = len(b)
+        pairs += b
+    pairs = dedupe(pairs)
+    if len(pairs) < 150:
+        raise ToolError("too few schema pairs")
+    pp = ctx.wpath("schema-pairs.ndjson")
+    write_ndjson(pp, pairs)
+    _, out = vh(BIN, ["schema", "compare"], stdin_path=pp)
+    os.unlink(pp)
+    evs = [json.loads(l) for l in out.splitlines()]
+    if len(evs) != len(pairs):
+        raise ToolError("compare returned %d events for %d pairs" % (len(evs), len(pairs)))
+    # ---- TLC decides: reported extension / equality must be sound over the payload universe
+    proj = [{k: e[k] for k in ("base", "new", "schemas_valid", "eq", "ext", "eqn", "extn")} for e in evs]
+    bad = validate_calls("SborSchema", "TraceSborSchema", proj, "c23", chunks=12, timeout=3000, heap="3g")
+    ctx.cov["evaluations"] += len(evs)
+    ctx.cov["traces_validated_against_impl"] += len(evs)
+
+    def edit_summary(e):
+        return {"base_kinds": [d["k"] for d in e["base"]["s"]], "new_kinds": [d["k"] for d in e["new"]["s"]],
+                "verdicts": {k: e[k] for k in ("eq", "ext", "eqn", "extn")}}
+    for b in bad[:30]:
+        e = evs[b]
+        what = "reported equal" if "valid" in (e["eq"], e["eqn"]) else "reported valid extension"
+        ctx.violation("unsound verdict: %s (root kind %s)" % (what, e["base"]["s"][0]["k"]),
+                      "%s but the payload sets differ: %s" % (what, json.dumps(edit_summary(e))),
+                      {"pair": {"base": e["base"], "new": e["new"]}, "verdicts": edit_summary(e)["verdicts"]})
+    stats = collections.Counter()
+    for e in evs:
+        if "panic" in (e["eq"], e["ext"], e["eqn"], e["extn"]):
+            stats["comparison_panicked"] += 1
+        if e["eq"] == "valid":
+            stats["reported_equal"] += 1
+        elif e["ext"] == "valid":
+            stats["reported_extension_only"] += 1
+        elif "valid" in (e["eqn"], e["extn"]):
+            stats["valid_only_with_name_changes_allowed"] += 1
+        else:
+            stats["reported_invalid"] += 1
+    if min(stats["reported_equal"], stats["reported_extension_only"], stats["reported_invalid"]) < 8:
+        raise ToolError("verdict classes degenerate: %s" % dict(stats))
+    ctx.sample({"pair": {"base": evs[1]["base"], "new": evs[1]["new"]}, "verdicts": edit_summary(evs[1])["verdicts"]})
+    k = next(i for i, e in enumerate(evs) if e["ext"] == "valid" and e["eq"] == "invalid")
+    ctx.sample({"pair": {"base": evs[k]["base"], "new": evs[k]["new"]}, "verdicts": edit_summary(evs[k])["verdicts"]})
+    pk = [e for e in evs if "panic" in (e["eq"], e["ext"], e["eqn"], e["extn"])]
+    if pk:
+        ctx.sample({"comparison_panic_example": edit_summary(pk[0]), "note": "a panicking comparison reports nothing; not a soundness violation"})
+    # ---- binding self-test: claim "valid extension" for pairs the real comparison rejected
+    rej = [json.loads(json.dumps(p)) for p, e in zip(proj, evs) if e["ext"] == "invalid" and e["extn"] == "invalid" and e["eq"] == "invalid"][:24]
+    for p in rej:
+        p["ext"] = "valid"
+    got = validate_calls("SborSchema", "TraceSborSchema", rej, "c23self", chunks=2, timeout=3000, heap="3g")
+    if len(got) < len(rej) // 3:
+        raise ToolError("binding self-test failed: only %d of %d forged verdicts rejected" % (len(got), len(rej)))
+    nontrivial = sum(1 for e in evs if "valid" in (e["eq"], e["ext"], e["eqn"], e["extn"]))
+    return {"exhaustive": True, "distinct_nontrivial": nontrivial, "pairs": len(pairs), "pairs_per_generator": per_run,
+            "verdict_classes": dict(stats), "payload_universe": universe, "forged_verdicts_rejected": "%d/%d" % (len(got), len(rej)),
+            "rule": "schema pairs enumerated by TLC: 16 base schemas (tuples, enums, arrays, maps, strings, validated U8, nested, shared, "
+                    "recursive types, well-known leaves) x all single edits and %s double edits (add / remove / renumber variants, add / remove / "
+                    "swap fields, widen / narrow / drop / add validations, redirect child references, replace types by Any / Bool / U8 / "
+                    "unit / array, rename types / fields / variants, append unreachable types); both real schemas built and validated, "
+                    "compare_single_type_schemas run with require_equality() and allow_extension() (also with all name changes allowed); "
+                    "(quick tier: the 4 bases of one residue class mod 4) for every reported valid extension TLC checks Valid(old) => Valid(new), for every reported equality Valid(old) <=> "
+                    "Valid(new), over the complete bounded payload universe (every value tree of <= 3 nodes plus 4-node chains / triples / "
+                    "two-cell lists); distinct = pairs with at least one 'valid' verdict" % ("a 1/12 sample of" if q else "a quarter of all")}
+
+
+# =============================================================================================
+# C22
+
+OWN_KEY = "typed decode laxer than schema: Own entity type"
+
+
+def c22_project(e):
+    return {k: e[k] for k in ("schema", "root", "origin", "tree", "has_tree", "validator", "typed", "roundtrip")}
+
+
+def C22(ctx):
+    q = ctx.quick
+    r = tlc("SborSchema", "MCSborSchema", workers=8, timeout=2400, consts={"Heavy": "FALSE" if q else "TRUE"})
+    tlc_must_pass(r, "MCSborSchema", required_actions=["GInit", "GNext"])
+    ctx.add_tlc(r)
+
+    # ---- G: (schema, value, Valid) cases from TLC against the real payload validator
+    consts = {"BaseMod": 4, "BaseRem": ctx.seed % 4, "Stride": 60, "Off": ctx.seed % 60} if q else \
+             {"BaseMod": 1, "BaseRem": 0, "Stride": 25, "Off": ctx.seed % 25}
+    g = tlc("SborSchema", "GenSborValid", workers=8, coverage=False, timeout=2400, heap="6g", consts=consts)
+    if not g.ok:
+        raise ToolError("GenSborValid failed: %s" % g.out[-1500:])
+    cases = g.printed("B")
+    del g
+    nvalid = sum(1 for c in cases if c["exp"])
+    if len(cases) < 3000 or nvalid < 500 or len(cases) - nvalid < 500:
+        raise ToolError("degenerate validator cases: %d cases, %d valid" % (len(cases), nvalid))
+    cp = ctx.wpath("valid-cases.ndjson")
+    write_ndjson(cp, cases)
+    _, out = vh(BIN, ["schema", "validate"], stdin_path=cp)
+    done = None
+    for line in out.splitlines():
+        o = json.loads(line)
+        if "mismatch" in o:
+            c = cases[o["b"]]
+            ctx.violation("validator verdict differs from Valid (%s, root kind %s)" % (o["mismatch"], c["schema"][0]["k"]),
+                          "schema %s value %s: specification says %s, validate_payload_against_schema says %s" %
+                          (json.dumps([d["k"] for d in c["schema"]]), json.dumps(c["x"])[:200], o["exp"], o["got"]), {"case": c, "mismatch": o})
+        if "done" in o:
+            done = o
+    if done is None or done["done"] != len(cases):
+        raise ToolError("validator replay did not complete")
+    ctx.cov["evaluations"] += len(cases)
+    ctx.cov["traces_validated_against_impl"] += len(cases)
+    ctx.sample({"validator_case": cases[0]})
+    # binding self-test (G): a wrong expected verdict must be reported
+    forged = [json.loads(json.dumps(c)) for c in cases[:20]]
+    forged[4]["exp"] = not forged[4]["exp"]
+    forged[11]["exp"] = not forged[11]["exp"]
+    write_ndjson(cp, forged)
+    _, out2 = vh(BIN, ["schema", "validate"], stdin_path=cp)
+    os.unlink(cp)
+    mm = sorted(json.loads(l)["b"] for l in out2.splitlines() if "mismatch" in json.loads(l))
+    if mm != [4, 11]:
+        raise ToolError("binding self-test (validator cases) failed: %s" % mm)
+
+    # ---- T: engine types: built values (+ harvested event payloads, thorough) and their mutants
+    sp, ep = ctx.wpath("schemas.ndjson"), ctx.wpath("type-events.ndjson")
+    vh(BIN, ["schema", "types", "seed=%d" % ctx.seed, "mutants=%d" % (25 if q else 300), "harvest=%d" % (0 if q else 1), "schemas=" + sp],
+       stdout_path=ep, timeout=3000)
+    lines = read_ndjson(ep)
+    os.unlink(ep)
+    end, evs = lines[-1], lines[:-1]
+    if not end.get("end") or end["types"] < 20:
+        raise ToolError("type run incomplete: %s" % end)
+    bad, nrec = validate_by_record(ctx, "SborSchema", "TraceSborSchema", evs, c22_project, "c22", timeout=3000, heap="3g", env={"SCHEMAS": sp})
+    nviol = collections.Counter()
+    for b in bad:
+        e = evs[b]
+        if e["origin"] == "mutant" and e["typed"] == "ok" and e["validator"] == "err" and e["tree"]["k"] == "Own":
+            key = OWN_KEY
+        else:
+            key = "type %s (%s payload): validator=%s typed=%s roundtrip=%s" % (e["type"], e["origin"], e["validator"], e["typed"], e["roundtrip"])
+        nviol[key] += 1
+        if nviol[key] <= 2:
+            ctx.violation(key, "%s %s payload of %d bytes: validator %s, typed decode %s, value tree %s" %
+                          (e["type"], e["origin"], e["size"], e["validator"], e["typed"], json.dumps(e["tree"])[:200]), {"event": e})
+    enc = [e for e in evs if e["origin"] == "encoded"]
+    kinds = set()
+
+    def walk(t):
+        kinds.add(t["k"])
+        for c in t["c"]:
+            walk(c)
+    for e in enc:
+        walk(e["tree"])
+    need = {"Bool", "I8", "I16", "I32", "I64", "I128", "U8", "U16", "U32", "U64", "U128", "String", "Tuple", "Enum", "Array", "Map",
+            "Reference", "Own", "Decimal", "PreciseDecimal", "NonFungibleLocalId"}
+    if not need <= kinds:
+        raise ToolError("value kinds never produced: %s" % sorted(need - kinds))
+    schemas = read_ndjson(sp)
+    vkinds = {(d["k"], d["lo"]["some"] or d["hi"]["some"], d["cv"]) for s_ in schemas for d in s_["defs"]}
+    if not any(k == "Array" and b for k, b, _ in vkinds) or not any(cv for _, _, cv in vkinds):
+        raise ToolError("no length / custom validation among the engine schemas")
+    mut = collections.Counter((e["untyped"], e["validator"], e["typed"]) for e in evs if e["origin"] == "mutant")
+    if mut[("ok", "ok", "ok")] < 50 or mut[("ok", "err", "err")] < 20 or mut[("err", "err", "err")] < 50:
+        raise ToolError("mutant classes degenerate: %s" % dict(mut))
+    ctx.sample({"type_event": {k: enc[3][k] for k in ("type", "origin", "validator", "typed", "roundtrip", "size")}, "tree": enc[3]["tree"]})
+    ctx.sample({"mutant_classes(untyped,validator,typed)": {"/".join(k): v for k, v in mut.items()}})
+    ctx.cov["traces_validated_against_impl"] += len(evs)
+    # binding self-test (T): a forged verdict on an encoded value must be rejected
+    forged = [json.loads(json.dumps(c22_project(e))) for e in enc[:10]]
+    forged[2]["validator"] = "err"
+    forged[5]["roundtrip"] = False
+    forged[7]["tree"]["k"] = "Bool" if forged[7]["tree"]["k"] != "Bool" else "U8"
+    got = validate_calls("SborSchema", "TraceSborSchema", forged, "c22self", chunks=1, env={"SCHEMAS": sp}, heap="3g")
+    os.unlink(sp)
+    if got != [2, 5, 7]:
+        raise ToolError("binding self-test (type events) failed: %s" % got)
+    distinct = len({json.dumps(c22_project(e), sort_keys=True) for e in evs}) + len(cases)
+    return {"exhaustive": False, "distinct_nontrivial": distinct, "validator_cases": len(cases), "validator_cases_expected_valid": nvalid,
+            "engine_types": end["types"], "encoded_values": len(enc), "mutants": len(evs) - len(enc),
+            "distinct_type_event_records": nrec, "payloads_over_size_cap": end["skipped_large"], "violations_by_key": dict(nviol),
+            "rule": "G: for %d small schemas (bases and single edits of GenSborSchema) every universe value the specification says is "
+                    "valid plus a rotating 1/%d sample of the others, encoded as real basic SBOR payloads and judged by "
+                    "validate_payload_against_schema - verdict must equal Valid; T: %d engine / Scrypto types (addresses, Own wrappers, "
+                    "decimals, ids, keys and hashes with length validation, access rules, metadata values, vault substates, consensus "
+                    "config, events, fee structures, std composites, a struct with every primitive kind), their generated schemas "
+                    "exported by the harness, %d built%s values encoded -> untyped value tree, validator verdict, typed decode round "
+                    "trip, and %d seeded mutants per value; TraceSborSchema recomputes Valid: encoded values valid and round-tripping, "
+                    "typed-decode Ok => Valid, validator verdict = Valid; distinct = distinct event records + validator cases" %
+                    (len({json.dumps(c["schema"], sort_keys=True) for c in cases}), consts["Stride"], end["types"], len(enc),
+                     "" if q else " and scenario-harvested", 25 if q else 300)}
+
+
 
 PROPS = {
+    "C22": dict(fn=C22, level="exploration", design_ref="5/C22",
+                technique="TLA+ spec SborSchema: Valid(schema, type, value tree) checked by TLC on a bounded universe, bound to the real "
+                          "payload validator by TLC-generated cases, and used by a trace module to judge encode / validate / typed-decode "
+                          "records of engine types and their mutants",
+                text="SborSchema defines the satisfaction relation between schemas (type kinds, numeric / length / custom validations) "
+                     "and untyped value trees. TLC checks its laws on a bounded universe and emits (schema, value, verdict) cases that "
+                     "the harness replays against validate_payload_against_schema with real schemas and payloads (spec -> impl). For a "
+                     "list of engine types the harness exports the generated Scrypto schema with its own exporter, encodes built (and, "
+                     "thorough, scenario-harvested) values, decodes them untyped into value trees, records the validator verdict and the "
+                     "typed-decode round trip, and the same for seeded mutants; TraceSborSchema recomputes Valid and requires: encoded "
+                     "values valid and round-tripping, typed decode Ok implies Valid, validator verdict equals Valid (impl -> spec).",
+                note="Level exploration: values of engine types are built / harvested / mutated, not enumerated; the model-checked part "
+                     "is the relation itself and its agreement with the validator on small schemas. Trusted: TLC, the harness schema "
+                     "exporter and value-tree projection (byte arrays summarised as length / min / max), typed-decoders of the listed "
+                     "types only. Payloads above 2 KB are skipped for the TLA+ evaluation (counted). Typed references are checked only "
+                     "statically (as the validator without a type-info lookup does)."),
+    "C23": dict(fn=C23, level="model_checking", design_ref="5/C23",
+                technique="TLA+ spec SborSchema: TLC-enumerated schema pairs, verdicts of the real schema comparison checked by TLC "
+                          "against payload validity over a complete bounded payload universe",
+                text="SborSchema defines schemas (type kinds, validations, names) and the satisfaction relation Valid(schema, type, "
+                     "value tree). TLC enumerates base schemas and edited schemas; the harness builds both as real sbor schemas, "
+                     "checks validate_schema, runs compare_single_type_schemas under require_equality() and allow_extension() and "
+                     "returns the verdicts; a trace module then evaluates, for each reported valid extension / equality, the promised "
+                     "inclusion / equality of accepted payload sets over every value tree of the bounded universe. Valid itself is "
+                     "bound to the real payload validator by C22 and checked here against laws (closed intervals, unknown discriminators, "
+                     "element kinds, Any).",
+                note="Trusted: TLC, the harness schema builder (JSON -> SchemaV1<NoCustomSchema>). Only the basic (no custom kinds) "
+                     "schema flavour and single-root comparisons are driven; custom Scrypto validations (reference / own kinds) are "
+                     "compared by code not exercised here. A comparison that panics (observed: allow_extension with an enum replaced by "
+                     "Any) reports nothing and is counted, not failed: the statement is about reported verdicts."),
     "C30": dict(fn=C30, level="model_checking", design_ref="5/C30",
                 technique="TLA+ spec ManifestText (abstract syntax layer): TLC-generated manifests built as real objects, "
                           "decompile -> compile round trip recorded and validated by a TLA+ trace module; corpus and scenario manifests",
